@@ -21,6 +21,11 @@
        handle any of them (Heartbeat keeps its [to], its commit value is
        per-follower).  Nodes outside V may do everything nodes inside V do; only
        quorums are counted inside V (so non-voting members are included).
+       A witness is a member of V that never campaigns, proposes or applies: the code
+       sends it entries stripped of their payload (makeMetadataEntries), but everything a
+       witness does (match / conflict detection, acknowledgements, votes) reads terms and
+       indexes only, so it behaves exactly like the model node that holds the full
+       entries; the payloads in a witness log of the model are ghost.
    D3  Responses that carry no information are not sent: vote rejections, Replicate
        rejections, HeartbeatResp, NoOP.  The self-vote of campaign() and the
        leader's own match are put in the soup as ordinary Vote / Ack messages, so every
